@@ -141,5 +141,4 @@ def run(ctx, res):
 
 
 def replay(data):
-    print(C.json.dumps(data, indent=1)[:6000])
-    return 0
+    return drex.replay_violations(data)
